@@ -107,11 +107,13 @@ def be32enc (n : Nat) : Bytes :=
 def frame (p : Bytes) : Bytes :=
   UInt8.ofNat Hs.handshakeMagic :: UInt8.ofNat Hs.handshakeVersion :: (be32enc p.length ++ p)
 
-/-- Time. `readMessage` arms a fresh read deadline of `timeout` before EVERY `conn.Read`
-    (`conn.SetReadDeadline(time.Now().Add(timeout))` inside the loop). If the i-th read returns after
-    `delays[i]` (a read that would take longer fails at the deadline), the time spent in the first `n`
-    reads is: -/
-def elapsed (timeout : Nat) (delays : List Nat) (n : Nat) : Nat :=
-  ((delays.take n).map (fun d => min d timeout)).sum
+/-- Time. If the i-th read returns after `delays[i]`, the time spent in the first `n` reads is, depending on where
+    `readMessage` arms its read deadline (`pm`, regenerated as Generated.Hs.deadlinePerMessage):
+    * once for the whole message (`pm`): the reads share one deadline — whatever is still outstanding when it passes
+      fails at once, so the total is capped by the timeout;
+    * afresh before EVERY `conn.Read` (`¬pm`, the code before the repair): each read is capped on its own. -/
+def elapsed (pm : Bool) (timeout : Nat) (delays : List Nat) (n : Nat) : Nat :=
+  if pm then min (delays.take n).sum timeout
+  else ((delays.take n).map (fun d => min d timeout)).sum
 
 end ErgoVerif.HsReader
